@@ -75,6 +75,11 @@ def step(op, s, k):
             return str(v) + repr(v.name)
         # op 9 / 10: FIRST netloc-accessor reads on objects shared between the threads that were NOT pre-filled by the parser:
         # URL(s, encoded=True) and a derived URL (both come out of lru-cached constructors, so every thread gets the same object)
+        if op == 11:
+            # '' and '/' under an authority are the same URL: equal, and equal hashes — first hash of a fresh shared object
+            base = "http://t.example" + s.rpartition("#")[2]          # depends on the string only: every thread meets the same two objects
+            a1, a2 = URL(base + "#" + s.rpartition("#")[2]), URL(base + "/#" + s.rpartition("#")[2])
+            return repr((hash(a1) == hash(a2), a1 == a2, a1 < a2, a1 <= a2, hash(a1) == hash(URL(str(a1)))))
         if op == 9:
             v = URL(s, encoded=True)
         else:
@@ -88,7 +93,8 @@ def step(op, s, k):
 def program(seed, t, rounds, per_round):
     r = random.Random(seed * 7919 + t)
     # ops 9 and 10 get extra weight on the empty-host strings (i % 4 == 3)
-    return [[((r.choice([9, 10, 9, 10, 1, 5]) if (i % 4 == 3 and r.random() < 0.8) else r.randrange(11)), i, r.randrange(1000)) for i in range(per_round)] for _ in range(rounds)]
+    return [[((r.choice([9, 10, 9, 10, 1, 5]) if (i % 4 == 3 and r.random() < 0.8) else (11 if (i % 4 == 1 and r.random() < 0.7) else r.randrange(12))), i, r.randrange(1000))
+             for i in range(per_round)] for _ in range(rounds)]
 
 
 def sequential(seed, nthreads, rounds, per_round):
